@@ -125,5 +125,13 @@ theorem hook_bodies_as_modelled : Generated.hookStatements = [
   ("AfterUnbondingInitiated", ["return nil"])
 ] := rfl
 
+
+/-- the unbonding part of the slash callback cannot fail: for a fraction in [0, 1], wherever the module's custody covers the
+    pending unbondings (C01's invariant, `cover_of_gap`) and no pending balance is negative (`reach_nq`), every cut is
+    between 0 and the entry's balance and every transfer of a cut to the fee collector is covered -/
+theorem unbonding_part_never_fails (v : ValId) (f : Dec) (hf0 : 0 ≤ f) (hf1 : f ≤ one) (w : World)
+    (hs : QSorted w) (hn : NonnegQ w) (hc : Cover w) : ∃ w', slashUndelegations v f w = (.ok (), w') :=
+  slashUndelegations_ok v f hf0 hf1 w hs hn hc
+
 end C08
 end Alliance
